@@ -194,6 +194,8 @@ type c11PipeGen struct {
 	Extra   bool   `json:"extra,omitempty"`    // a ResponseAdaptor between the filter under test and post
 	Resil   bool   `json:"resil,omitempty"`    // Proxy: retry + circuit breaker policies on the main pool
 	Kind    string `json:"kind,omitempty"`     // kind of the filter under test in this generation (empty: the scenario's kind); a generation may keep the NAME and change the KIND
+	NoFlow  bool   `json:"no_flow,omitempty"`  // the spec has no flow section: the order of the filters is the flow (no jumpIf)
+	JumpEnd bool   `json:"jump_end,omitempty"` // Jump: the results of the filter under test jump to END instead of the post filter
 	Res     *c11Resil `json:"res,omitempty"`   // Proxy variants 6/7: pools, policies, timeouts (c11_resil_test.go)
 }
 
@@ -217,7 +219,7 @@ func c11GenPipe(rng *sim.Rand) *c11PipeSc {
 		sc.Kind = "Mock"
 	}
 	nv := c11NVariants[sc.Kind]
-	g := c11PipeGen{V: rng.Intn(nv), FutName: "fut", Jump: rng.Bool(0.5), Extra: rng.Bool(0.3), Resil: rng.Bool(0.3)}
+	g := c11PipeGen{V: rng.Intn(nv), FutName: "fut", Jump: rng.Bool(0.5), Extra: rng.Bool(0.3), Resil: rng.Bool(0.3), NoFlow: rng.Bool(0.15), JumpEnd: rng.Bool(0.3)}
 	// resilience-observable flavour: every Proxy generation is variant 6 or 7,
 	// requests carry fail scripts for the backend
 	resObs := sc.Kind == "Proxy" && rng.Bool(0.65)
@@ -286,6 +288,12 @@ func c11GenPipe(rng *sim.Rand) *c11PipeSc {
 		}
 		if rng.Bool(0.2) {
 			n.Jump = !n.Jump
+		}
+		if rng.Bool(0.1) {
+			n.NoFlow = !n.NoFlow
+		}
+		if rng.Bool(0.15) {
+			n.JumpEnd = !n.JumpEnd
 		}
 		if rng.Bool(0.2) {
 			n.Extra = !n.Extra
@@ -507,6 +515,9 @@ func c11PipeText(name, kind string, gi int, g *c11PipeGen, ample bool) string {
 			j := c11M{}
 			for _, res := range k.Results {
 				j[res] = "post"
+				if g.JumpEnd {
+					j[res] = "END"
+				}
 			}
 			futNode["jumpIf"] = j
 		}
@@ -520,6 +531,9 @@ func c11PipeText(name, kind string, gi int, g *c11PipeGen, ample bool) string {
 	flow = append(flow, c11M{"filter": "post"})
 	fs = append(fs, c11M{"name": "post", "kind": "C11Park", "gen": gi, "role": "post", "tag": name})
 	m := c11M{"name": name, "kind": "Pipeline", "flow": flow, "filters": fs}
+	if g.NoFlow {
+		delete(m, "flow")
+	}
 	if c11ResVariant(kind, g.V) {
 		c11ResApply(m, fs[1], g.V, g.Res, ample)
 	} else if kind == "Proxy" && g.Resil {
@@ -967,6 +981,14 @@ func c11ExecPipe(r *sim.Run, sc *c11PipeSc) {
 				if a.Srv != b.Srv {
 					r.Probe("c11.pipe.resil.update_changes_servers")
 				}
+			}
+			if sc.Gens[gi].NoFlow != sc.Gens[gi-1].NoFlow {
+				r.Probe("c11.pipe.update_adds_or_removes_flow_section")
+			} else if sc.Gens[gi].NoFlow {
+				r.Probe("c11.pipe.update_of_pipeline_without_flow_section")
+			}
+			if sc.Gens[gi].Jump && sc.Gens[gi].JumpEnd && !sc.Gens[gi].NoFlow {
+				r.Probe("c11.pipe.generation_jumps_to_END")
 			}
 			r.Eventf("inherit g%d <- g%d starts (same fut spec: %v, kind %s -> %s)", gi, gi-1, sc.Gens[gi].V == sc.Gens[gi-1].V && sc.Gens[gi].FutName == sc.Gens[gi-1].FutName && kindOf(gi) == kindOf(gi-1), kindOf(gi-1), kindOf(gi))
 			n := &pipeline.Pipeline{}
